@@ -17,7 +17,7 @@ MIN_EVENTS = {"successful fits judged": 1000, "unsuccessful fits judged": 30,
               "fixed parameters judged": 1000,
               "expression parameters judged": 30}
 TIMEOUT = {"quick": 900, "thorough": 3500}
-N_CASES = {"quick": 130, "thorough": 2800}     # per shard
+N_CASES = {"quick": 110, "thorough": 2400}     # per shard
 METHODS = ["leastsq", "leastsq", "nelder", "least_squares", "powell",
            "lbfgsb", "cobyla"]
 RULE = ("case = (curve: shipped or expression-constrained harness model, "
@@ -147,6 +147,31 @@ def one_case(rec, tap, rng, cid):
     rec.event("fits with method " + method)
     rec.event("fits with gcf_k != 1" if k != 1 else "fits with gcf_k == 1")
     fitlab.check_consistency(rec, idnt, desc, init=init)
+    if rng.random() < .35 and idnt.fit_properties.get("success"):
+        # second fit of the SAME object: one fixed parameter changed by a
+        # tiny amount (far below any 'close enough' tolerance in SI units)
+        p2 = copy.deepcopy(init)
+        fixed = [n for n in p2 if not p2[n].vary and p2[n].expr is None]
+        if fixed:
+            n_ = fixed[int(rng.integers(len(fixed)))]
+            v = p2[n_].value
+            dv = {"contact_point": 3e-9, "baseline": 2e-12}.get(
+                n_, abs(v) * 1e-7 if v else 1e-12)
+            p2[n_].value = float(np.clip(v + dv, p2[n_].min, p2[n_].max))
+            if p2[n_].value != v:
+                desc2 = dict(desc, second_fit={"changed": n_, "from": v,
+                                               "to": p2[n_].value})
+                init2 = copy.deepcopy(p2)
+                try:
+                    idnt.fit_model(params_initial=p2)
+                except BaseException as e:  # noqa
+                    rec.event("second fit raised %s" % type(e).__name__)
+                else:
+                    rec.evaluated(dg=(desc["curve"], desc["settings"],
+                                      desc2["second_fit"]))
+                    rec.event("second fits of the same object judged")
+                    fitlab.check_consistency(rec, idnt, desc2, init=init2,
+                                             prefix="second-fit/")
     rec.sample(desc, limit=3)
 
 
